@@ -12,7 +12,7 @@ RULE = ("G5 universes whose names contain characters sorting below '/' (- . +) a
         "distinct (universe, search) where some group has at least 2 candidates.")
 ASSUME = ["searches whose unfolded forms put '>' at different indices, or not as a whole segment in every form, are outside the statement's "
           "premise and not judged", "unfolded forms are observed from the real unfold_search"]
-BUDGET = {"quick": (240, 30), "thorough": (4000, 50)}
+BUDGET = {"quick": (240, 30), "thorough": (8000, 50)}
 NSHARDS = 16
 
 
